@@ -31,6 +31,8 @@ var c01Sinks = []string{"text", "vtext", "attr", "attr2", "bound", "vbind", "bou
 	// the value goes through a filter first: the result is still only text
 	// (the literal check does not apply to a transformed value; markup, spill,
 	// canary and call checks do)
+	// a bracketed attribute is written out literally, but a mustache in its value is interpolated
+	"bracket",
 	"text~escape", "vtext~escape", "vtext~escapecall", "vtext~trim|escape", "attr~escape", "bound~escape", "text~trim", "vtext~string", "vtext~default"}
 
 // c01RawTextTags: the parser does not decode character references inside these
@@ -46,6 +48,8 @@ func c01LR(nbh string) (lSrc, rSrc, lDec, rDec string) {
 	switch nbh {
 	case "plain", "attrs":
 		return "left ", " right", "left ", " right"
+	case "pad": // blanks at both ends of the static part (used by C02)
+		return "  lead ", " trail\t ", "  lead ", " trail\t "
 	case "entity":
 		return "&lt;b&gt; AT&amp;T; ", " &#60;i&#62; &amp;copy; &quot;", "<b> AT&T; ", ` <i> &copy; "`
 	}
@@ -121,6 +125,8 @@ func c01SinkEl(sink, nbh, e, extra string) (el string, sinkAttr string, lDec, rD
 		return open + ` v-text="` + e + `">old</p>`, "", "", "", true
 	case "attr":
 		return open + ` title="` + lS + `{{ ` + e + ` }}` + rS + `">k</p>`, "title", lD, rD, true
+	case "bracket":
+		return open + ` [title]="` + lS + `{{ ` + e + ` }}` + rS + `">k</p>`, "title", lD, rD, true
 	case "attr2":
 		return open + ` title="` + lS + `{{ ` + e + ` }}|{{ w }}` + rS + `">k</p>`, "title", lD, "|W" + rD, true
 	case "bound":
